@@ -52,6 +52,8 @@ def _drive(args):
             pan = (('5' * 12 + '4444', '4' + '1' * 15, '12345637890' + '0' * 8)[tid % 3] * 3)[:n]
         if numeric:
             pan = ''.join('123456789'[(i * 7 + tid) % 9] for i in range(min(n, 19)))
+            if tid % 3 == 1:
+                pan = '000' + pan[3:]            # leading zeros are digits of the card number
         elif tid in (5, 11):        # a line feed / carriage return inside the element (EBCDIC 0x25 / 0x0d are ordinary bytes)
             pan = pan[:8] + ('\n' if tid == 5 else '\r') + pan[9:]
         m = {'MTI': '1240', 'DE' + bit: int(pan) if numeric else pan}
